@@ -251,16 +251,20 @@ def check(cx):
         cx.verdict(not g.success_returns_from(0, blocked=snd), r5, owner + ":result-sent", g.where(),
                    "the result is sent on every path", "a job closure of %s can finish without sending the result: the submitter blocks forever" % owner)
     waiters = [(h, c) for h in runner_fns if h.kind != "closure" for c in h.calls() if ("mpsc::Receiver" in c.callee and c.callee.endswith("::recv"))]
-    if len(waiters) < 2:
-        cx.bad(r5, "recv:anchor-missing", "", "fewer than two SharedTaskRunner methods wait on a result channel")
+    if len(waiters) < 1:
+        cx.bad(r5, "recv:anchor-missing", "", "no SharedTaskRunner method waits on a result channel")
+    # (2) is a property of the function that contains the recv, wherever it was factored to
+    for h0 in sorted((g for g in p.raw_fns.values() if ((g.root or g.id).startswith(RUNNER + "::") or g.impl_adt == RUNNER) and g.kind != "closure"), key=lambda x: x.id):
+        for rc0 in [c for c in h0.calls() if ("mpsc::Receiver" in c.callee and c.callee.endswith("::recv"))][:1]:
+            cx.verdict(bool(h0.reachable(rc0.term["to"]) & h0.err_blocks()) if rc0.term.get("to") is not None else False, r5,
+                       h0.id.rsplit("::", 1)[-1] + ":recv-error-propagated", h0.where(),
+                       "a closed channel is reported as an error", "recv errors are not propagated")
     seen_w = set()
     for h, rc in waiters:
         nm_ = h.id.rsplit("::", 1)[-1]
         if nm_ in seen_w:
             continue
         seen_w.add(nm_)
-        cx.verdict(bool(h.reachable(rc.term["to"]) & h.err_blocks()) if rc.term.get("to") is not None else False, r5, nm_ + ":recv-error-propagated", h.where(),
-                   "a closed channel is reported as an error", "recv errors are not propagated")
         # Sender locals still owned when recv is reached: dropped (by scope end) somewhere after the wait
         after = h.reachable(rc.bb)
         late = [bi for bi in after if h.blocks[bi]["term"]["t"] == "drop" and "mpsc::Sender<" in str(h.blocks[bi]["term"].get("ty", ""))
